@@ -111,6 +111,24 @@ fn r2(x: f64) -> f64 {
     (x * 100.0).round() / 100.0
 }
 
+/// A path/rectangle operand: usually an ordinary page coordinate, one time in five a value from the
+/// edges of the number formatter's domain (negative, strictly between -1 and 0, tiny, large, integral).
+fn coord(r: &mut Rng, max: f64) -> f64 {
+    if r.chance(4, 5) {
+        return r2(r.below(max as u64) as f64);
+    }
+    match r.below(8) {
+        0 => -r2(r.below(100) as f64 / 100.0),          // (-1, 0]
+        1 => r2(r.below(100) as f64 / 100.0),           // [0, 1)
+        2 => -r2(1.0 + r.below(500) as f64 + r.below(100) as f64 / 100.0),
+        3 => *r.pick(&[-0.01, 0.01, -0.5, 0.5, -0.99, 0.99, -1.0, 1.0, -1.01]),
+        4 => r2(1000.0 + r.below(99000) as f64 + 0.75),
+        5 => -r2(1000.0 + r.below(99000) as f64 + 0.25),
+        6 => r.below(max as u64) as f64 + *r.pick(&[0.05, 0.1, 0.95, 0.99, 0.01]),
+        _ => 0.0,
+    }
+}
+
 const WORDS: [&str; 24] = [
     "alpha", "beta", "gamma", "delta", "invoice", "total", "Section", "page", "lorem", "ipsum", "42", "3.14", "PDF", "xref",
     "obj", "endobj", "stream", "Hello", "World", "quick", "brown", "fox", "jumps", "over",
@@ -171,7 +189,12 @@ pub struct EncSpec {
 }
 
 pub fn gen_password(r: &mut Rng) -> String {
-    match r.below(11) {
+    match r.below(14) {
+        // lengths around every boundary a security handler knows (32 bytes for revisions 2-4, 127 bytes
+        // for revisions 5/6), in ASCII and with a multi-byte character straddling the boundary
+        11 => { let n = [31usize, 32, 33, 126, 127, 128, 129, 200, 255, 256][r.below(10) as usize]; (0..n).map(|i| (b'a' + (i % 26) as u8) as char).collect() }
+        12 => { let n = [31usize, 126, 127][r.below(3) as usize]; let mut s: String = (0..n).map(|i| (b'A' + (i % 26) as u8) as char).collect(); s.push_str("\u{e9}\u{65e5}tail"); s }
+        13 => { let n = r.below(300) as usize; (0..n).map(|i| if i % 7 == 3 { '\u{f1}' } else { (b'0' + (i % 10) as u8) as char }).collect() }
         // longer than 32 bytes with a multi-byte character straddling byte 32 (revisions 2-4 use the
         // first 32 BYTES of the password)
         7 => format!("a{}", "\u{e9}".repeat(20)),
@@ -236,15 +259,15 @@ pub fn gen_program(r: &mut Rng, o: &GenProgOpts) -> Program {
             let y = r2(r.below(h as u64) as f64 + 0.25);
             if r.chance(1, 6) {
                 let k = 2 + r.usize_below(3);
-                ops.push(DocOp::StrokeOnly { pts: (0..k).map(|_| [r2(r.below(w as u64) as f64), r2(r.below(h as u64) as f64)]).collect() });
+                ops.push(DocOp::StrokeOnly { pts: (0..k).map(|_| [coord(r, w), coord(r, h)]).collect() });
             }
             let op = match r.below(if o.images { 9 } else { 8 }) {
                 0..=2 => DocOp::Text { font: r.below(12) as u8, size: *r.pick(&[8.0, 10.0, 12.0, 14.5, 24.0]), x, y, text: gen_text(r, o.tricky_text) },
                 3 => DocOp::Rect {
-                    x,
-                    y,
-                    w: r2(1.0 + r.below(200) as f64),
-                    h: r2(1.0 + r.below(100) as f64),
+                    x: if r.chance(1, 4) { coord(r, w) } else { x },
+                    y: if r.chance(1, 4) { coord(r, h) } else { y },
+                    w: if r.chance(1, 5) { coord(r, 200.0) } else { r2(1.0 + r.below(200) as f64) },
+                    h: if r.chance(1, 5) { coord(r, 100.0) } else { r2(1.0 + r.below(100) as f64) },
                     rgb: [r2(r.below(101) as f64 / 100.0), r2(r.below(101) as f64 / 100.0), r2(r.below(101) as f64 / 100.0)],
                     mode: r.below(3) as u8,
                 },
@@ -253,7 +276,7 @@ pub fn gen_program(r: &mut Rng, o: &GenProgOpts) -> Program {
                     let curve = r.chance(1, 3);
                     let k = if curve { 1 + 3 * (1 + r.usize_below(2)) } else { k };
                     DocOp::Path {
-                        pts: (0..k).map(|_| [r2(r.below(w as u64) as f64), r2(r.below(h as u64) as f64)]).collect(),
+                        pts: (0..k).map(|_| [coord(r, w), coord(r, h)]).collect(),
                         curve,
                         close: r.chance(1, 2),
                         gray: r2(r.below(101) as f64 / 100.0),
@@ -263,15 +286,15 @@ pub fn gen_program(r: &mut Rng, o: &GenProgOpts) -> Program {
                 5 => DocOp::LineState { width: *r.pick(&[0.25, 1.0, 2.5, 10.0]), cap: r.below(3) as u8, join: r.below(3) as u8 },
                 6 => DocOp::Transformed {
                     m: [*r.pick(&[1.0, 0.5, 2.0, 0.0]), *r.pick(&[0.0, 1.0, -1.0]), *r.pick(&[0.0, -1.0, 0.5]), *r.pick(&[1.0, 0.5, 2.0]), x, y],
-                    x: 0.0,
-                    y: 0.0,
+                    x: if r.chance(1, 3) { coord(r, 20.0) } else { 0.0 },
+                    y: if r.chance(1, 3) { coord(r, 20.0) } else { 0.0 },
                     w: r2(5.0 + r.below(50) as f64),
                     h: r2(5.0 + r.below(50) as f64),
                 },
                 7 => DocOp::Circle {
-                    cx: x,
-                    cy: y,
-                    r: r2(1.0 + r.below(80) as f64),
+                    cx: if r.chance(1, 4) { coord(r, w) } else { x },
+                    cy: if r.chance(1, 4) { coord(r, h) } else { y },
+                    r: if r.chance(1, 4) { *r.pick(&[0.5, 0.25, 1.0, 0.75]) } else { r2(1.0 + r.below(80) as f64) },
                     cmyk: [r2(r.below(101) as f64 / 100.0), r2(r.below(101) as f64 / 100.0), 0.0, r2(r.below(101) as f64 / 100.0)],
                 },
                 _ => {
